@@ -23,7 +23,15 @@ for f in sorted(glob.glob(os.path.join(root, "replays/found", prop + "-*.json"))
         n = 2
         while os.path.exists(os.path.join(root, dst_rel)):
             dst_rel = f"replays/known/{prop}-{slug}-{n}.json"; n += 1
-        shutil.copyfile(f, os.path.join(root, dst_rel))
+        # narrow a family case to the inner evaluation named in the failure message
+        m = re.search(r"mutant #(\d+)", fl["msg"])
+        dd = json.loads(json.dumps(d))
+        if m and isinstance(dd.get("case"), dict) and "only" in dd["case"] and dd["case"]["only"] is None:
+            dd["case"]["only"] = int(m.group(1))
+        if isinstance(fl.get("patch"), dict) and isinstance(dd.get("case"), dict):
+            dd["case"].update(fl["patch"])
+        dd["fails"] = [fl]
+        json.dump(dd, open(os.path.join(root, dst_rel), "w"), indent=1)
         msg = re.sub(r"\s+", " ", fl["msg"])[:300]
         with open(kf, "a") as k:
             k.write(f"known: property={prop} sig={sig} replay={dst_rel} :: {prefix}{msg}\n")
